@@ -26,7 +26,7 @@ MkObs(n, R) == [n |-> n, psi |-> R.st.v, n2 |-> ONorm2(R.st.v), log |-> R.log]
 Init == CInit /\ ops = <<>> /\ obs = [n |-> 0, psi |-> <<>>, n2 |-> OZero, log |-> <<>>]
 Step(newgates, call) == /\ gates' = newgates /\ ops' = Append(ops, call)
                         /\ \E n \in {NumQ(newgates)} : \E R \in {RunLog(newgates, n)} : \E o \in {MkObs(n, R)} : obs' = o
-DoAdd == \E s \in {RandomElement(Shapes)} : \E k \in {RandomElement(0..7)} : \E p \in {RandomElement(0..7)} : \E l \in {RandomElement(0..7)} :
+DoAdd == \E s \in {RandomElement(Shapes)} : \E x \in {RandomElement(0..511)} : \E k \in {x % 8} : \E p \in {(x \div 8) % 8} : \E l \in {x \div 64} :
             LET g == [s EXCEPT !.par = SubSeq(<<k, p, l>>, 1, NPar(s.op))] IN Step(Append(gates, g), g)
 DoMeasure == obs.n > 0 /\ \E mask \in {RandomElement(1..(2^obs.n - 1))} :
                \E S \in {MaskSet(mask, obs.n)} : \E o \in {RandomElement(Support(obs.psi, S, obs.n))} :
